@@ -106,7 +106,8 @@ AddField(f) ==
         n == NextNum(m)
         nm == FieldName(Len(m.fields) + 1)
     IN IF ~Plain(m) \/ Len(m.fields) >= MaxFields THEN {}
-       ELSE {AppendField(f, i, NewField(nm, n, s.l, s.t, "")) : s \in ScalarShapes}
+       \* LABEL_REQUIRED (like TYPE_GROUP) is proto2 spelling; editions files say it with features
+       ELSE {AppendField(f, i, NewField(nm, n, s.l, s.t, "")) : s \in {q \in ScalarShapes : q.l # 2 \/ f.syntax = "proto2"}}
             \cup {AppendField(f, i, NewField(nm, n, l, KMessage, RefTo(MsgFullOf(f, r), f.msgs[r].name, st))) :
                     r \in {q \in 1..NM(f) : Plain(f.msgs[q])}, l \in {1, 3}, st \in RefStyles}
             \cup {AppendField(f, i, NewField(nm, n, l, KEnum, RefTo(EnumFullOf(f, r), f.enums[r].name, st))) :
